@@ -198,6 +198,53 @@ def explore(fn, max_dev=None, prefix=(), limit=None, free=()):
                 stack.append(base + [alt])
 
 
+def _alternatives(ch, pre_len, max_dev, free):
+    """The prefixes explore() would push after this execution."""
+    out = []
+    tr = ch.trace
+    for i in range(pre_len, len(tr)):
+        c, n, lab, w = tr[i]
+        if max_dev is not None and not (free and lab.startswith(tuple(free))):
+            if ch.deviations(upto=i, free=free) + 1 > max_dev:
+                continue
+        base = [t[0] for t in tr[:i]]
+        for alt in range(c + 1, n):
+            if w is not None and not w[alt] > 0:
+                continue
+            out.append(base + [alt])
+    return out
+
+
+_WAVE = {}
+
+
+def _wave_exec(pre):
+    fn, post, max_dev, free = _WAVE["args"]
+    ch = Chooser(pre)
+    try:
+        res = fn(ch)
+    except Pruned as e:
+        res = e
+    return post(ch, res), _alternatives(ch, len(pre), max_dev, free)
+
+
+def explore_waves(fn, post, procs, max_dev=None, prefix=(), free=()):
+    """The same set of executions as explore(), run wave by wave in a fork()ed process pool:
+    a wave is the set of prefixes scheduled by the previous wave.  ``post(chooser, result)`` runs
+    in the worker and returns a small picklable summary; yields the summaries (order unspecified)."""
+    import multiprocessing as mp
+
+    _WAVE["args"] = (fn, post, max_dev, tuple(free))
+    wave = [list(prefix)]
+    with mp.get_context("fork").Pool(procs) as pool:
+        while wave:
+            nxt = []
+            for summary, alts in pool.imap_unordered(_wave_exec, wave, chunksize=max(1, min(16, len(wave) // (procs * 4) or 1))):
+                nxt.extend(alts)
+                yield summary
+            wave = nxt
+
+
 def explore_all(fn, **kw):
     return list(explore(fn, **kw))
 
